@@ -68,6 +68,7 @@ fn main() {
                 extend_smaller_than_free: excl_arg.contains("extend_smaller_than_free"),
                 clear_with_shadow: excl_arg.contains("clear_with_shadow"),
                 entry_remove_leak: excl_arg.contains("entry_remove_leak"),
+                deser_leak_known: Vec::new(),
             };
             // share of the case budget per registry
             let share: BTreeMap<&str, f64> = [("r6", 1.0), ("r10", 0.4), ("r8", 0.3), ("r1", 0.15), ("r0", 0.05), ("p6a", 0.4), ("p6b", 0.4), ("p6c", 0.4), ("p10", 0.3), ("p1", 0.1)].into_iter().collect();
@@ -145,12 +146,14 @@ fn main() {
             let workers: usize = arg(&args, "--workers").and_then(|s| s.parse().ok()).unwrap_or(16);
             let cases: u32 = arg(&args, "--cases").and_then(|s| s.parse().ok()).unwrap_or(500);
             let regs = arg(&args, "--regs").unwrap_or_else(|| "r6,r10,r8,r1".into());
+            let dprop = arg(&args, "--prop").unwrap_or_else(|| "C11".into());
+            let leak_known: Vec<String> = arg(&args, "--known-leaks").map(|s| s.split('|').filter(|x| !x.is_empty()).map(|x| x.to_string()).collect()).unwrap_or_default();
             vcore::crash::install(&format!("{out}.crash.json"));
             let share: BTreeMap<&str, f64> = [("r6", 1.0), ("r10", 0.5), ("r8", 0.4), ("r1", 0.1)].into_iter().collect();
             let t0 = std::time::Instant::now();
             let mut reports = Vec::new();
             for reg in regs.split(',') {
-                let cfg = Config { prop: "C11".into(), thorough, seed, workers, cases_per_worker: ((cases as f64 * share.get(reg).copied().unwrap_or(0.2)).ceil() as u32).max(1), excl: Exclusions::default(), pool_digest: digest(reg).to_string(), mute: false };
+                let cfg = Config { prop: dprop.clone(), thorough, seed, workers, cases_per_worker: ((cases as f64 * share.get(reg).copied().unwrap_or(0.2)).ceil() as u32).max(1), excl: Exclusions { deser_leak_known: leak_known.clone(), ..Exclusions::default() }, pool_digest: digest(reg).to_string(), mute: false };
                 let r = run_deser_reg(reg, &cfg);
                 let stop = r.failure.is_some();
                 reports.push(r);
@@ -175,7 +178,7 @@ fn main() {
                     failure = r.failure.clone();
                 }
             }
-            let report = serde_json::json!({"property": "C11", "tier": tier, "seed": seed, "evaluations": evaluations, "distinct_nontrivial": nontrivial, "classes": classes, "registries": per_reg, "samples": samples, "failure": failure, "wall_s": t0.elapsed().as_secs_f64()});
+            let report = serde_json::json!({"property": dprop, "tier": tier, "seed": seed, "evaluations": evaluations, "distinct_nontrivial": nontrivial, "classes": classes, "registries": per_reg, "samples": samples, "failure": failure, "wall_s": t0.elapsed().as_secs_f64()});
             std::fs::write(&out, serde_json::to_string_pretty(&report).unwrap()).expect("write report");
             std::process::exit(if failure.is_some() { 1 } else { 0 });
         }
